@@ -565,12 +565,13 @@ impl Database {
         crate::verif::yield_point("inc_value.map.write");
         let (value, version) = {
             let mut db = self.map.write().unwrap();
-            match i32::from_str_radix(
-                &db.get(&key.to_string())
-                    .unwrap_or(&Value::from("0"))
-                    .to_string(),
-                10,
-            ) {
+            // A removed key still waiting to be deleted from disk counts as 0, like a key that
+            // never existed (its in-memory value is the "<Empty>" marker, not a number)
+            let current_value = match db.get(&key.to_string()) {
+                Some(value) if value.state != ValueStatus::Deleted => value.to_string(),
+                _ => String::from("0"),
+            };
+            match i32::from_str_radix(&current_value, 10) {
                 Ok(current) => match current.checked_add(inc) {
                     Some(next) => {
                         let next = next.to_string();
